@@ -6,6 +6,7 @@ from vlib.logixbench import CONFIGS, LogixScenario
 LEVEL = "exploration"
 SHARDS = {"quick": 8, "thorough": 16}
 TIMEOUT = {"quick": 900, "thorough": 3000}
+MIN_EVALUATIONS = {"quick": 10000, "thorough": 10000}  # fewer oracle evaluations than this means the workload collapsed: inconclusive
 RULE = ("random projects/memory images/configurations as for C01; each write() call carries 1-12 requests (atomic values at integer "
         "boundaries, REAL incl. infinities/denormals, array slices with start index and over-long value lists, members, bits of "
         "SINT/INT/DINT/LINT, several bits of one word, BOOL-array elements and aligned DWORD ranges, BOOL members, strings shorter/equal/longer "
